@@ -251,25 +251,3 @@ func c13ProbeF20(c *Ctx) {
 	}
 	c.Known = append(c.Known, "F20\tgone\tforced schedules "+strings.Join(tried, " ")+" and 3000 unforced pairs all answered like a fresh enforcer (fresh="+B(fresh)+")")
 }
-
-// ---------- note-only probe: GetPolicy returns the internal rule slice ----------
-//
-// Not a registered finding (so it goes to the notes, not to c.Known): it documents why the main
-// stream leaves a GetPolicy result unchecked when a successful RemovePolicy/UpdatePolicy overlaps
-// the call-plus-copy.  Deterministic and single-threaded in its forcing: the value RETURNED by a
-// completed SyncedEnforcer.GetPolicy() changes when another (later, completed) call removes or
-// updates a rule, because model.GetPolicy hands out ast.Policy itself and RemovePolicy shifts /
-// UpdatePolicy overwrites that backing array in place.  A concurrent reader of the returned slice
-// therefore races with writers that hold the write lock.
-func c13ProbeAlias(c *Ctx) {
-	spec := c13MakeSpec(false, false)
-	e, _ := c13NewSynced(spec, [][]string{{"p", "a", "data1", "read"}, {"p", "b", "data1", "read"}, {"p", "c", "data1", "read"}}, nil)
-	got, _ := e.GetPolicy()
-	before := rulesKey(got)
-	done := make(chan struct{})
-	go func() { _, _ = e.RemovePolicy("a", "data1", "read"); close(done) }()
-	<-done
-	after := rulesKey(got)
-	c.Notes = append(c.Notes, fmt.Sprintf("alias probe (not a registered finding; motivates the GetPolicy guard): slice returned by a completed SyncedEnforcer.GetPolicy() rendered %s; after another goroutine's completed RemovePolicy(a,data1,read) the SAME returned slice renders %s; changed=%s (a list with a duplicate that no sequential order produces; reading it concurrently with the writer is a data race)",
-		before, after, B(before != after)))
-}
